@@ -788,20 +788,23 @@ impl Prop for C17 {
     fn cases(&self, tier: Tier) -> u32 {
         tier.pick(60_000, 2_000_000)
     }
-    fn strategy(&self, _tier: Tier) -> BoxedStrategy<Case> {
+    fn strategy(&self, tier: Tier) -> BoxedStrategy<Case> {
         let secret32 = any::<[u8; 32]>();
+        // the client-driver cases go over a loopback socket: about 2 % of the quick tier, 0.4 % of the
+        // (33 times larger) thorough tier
+        let (wk, wd) = tier.pick((1u32, 2u32), (3u32, 1u32));
         prop_oneof![
-            20 => (proptest::collection::vec(any::<u8>(), 32..33), key_strat(), version_strat(), value_strat(), vtamper_strat(), any::<bool>())
+            20 * wk => (proptest::collection::vec(any::<u8>(), 32..33), key_strat(), version_strat(), value_strat(), vtamper_strat(), any::<bool>())
                 .prop_map(|(secret, key, version, value, tamper, crypt)| Case::Value { secret, key, version, value, tamper, crypt }),
-            30 => (secret32.clone(), proptest::collection::vec(rec_strat(), 0..6), stamper_strat(), any::<bool>(), any::<bool>())
+            30 * wk => (secret32.clone(), proptest::collection::vec(rec_strat(), 0..6), stamper_strat(), any::<bool>(), any::<bool>())
                 .prop_map(|(secret, recs, tamper, lss_impl, server_tag)| Case::Shared { secret, recs, tamper, lss_impl, server_tag }),
-            20 => (secret32, proptest::collection::vec(rec_strat(), 0..4), any::<[u8; 32]>(), any::<[u8; 32]>(), stamper_strat(), any::<u8>(), prop_oneof![1 => Just(0u8), 1 => 1u8..9])
+            20 * wk => (secret32, proptest::collection::vec(rec_strat(), 0..4), any::<[u8; 32]>(), any::<[u8; 32]>(), stamper_strat(), any::<u8>(), prop_oneof![1 => Just(0u8), 1 => 1u8..9])
                 .prop_map(|(secret, recs, n1, n2, tamper, which, tag_mut)| Case::Nonce { secret, recs, n1, n2, tamper, which, tag_mut }),
-            10 => (any::<[u8; 32]>(), (0u64..4, 0u32..3), (0u64..4, 0u32..3), 0u8..4, any::<bool>())
+            10 * wk => (any::<[u8; 32]>(), (0u64..4, 0u32..3), (0u64..4, 0u32..3), 0u8..4, any::<bool>())
                 .prop_map(|(seed, t1, t2, k, ldk)| Case::Entropy { seed, t1: (1_700_000_000 + t1.0, t1.1), t2: (1_700_000_000 + t2.0, t2.1), k, ldk }),
-            10 => (any::<[u8; 32]>(), proptest::collection::vec(rec_strat(), 0..5), 0u8..7, any::<u8>())
+            10 * wk => (any::<[u8; 32]>(), proptest::collection::vec(rec_strat(), 0..5), 0u8..7, any::<u8>())
                 .prop_map(|(secret, recs, tamper, pick)| Case::Startup { secret, recs, tamper, pick }),
-            2 => crate::props::c17drv::ops_strat().prop_map(|ops| Case::Driver { ops }),
+            wd => crate::props::c17drv::ops_strat().prop_map(|ops| Case::Driver { ops }),
         ]
         .boxed()
     }
